@@ -114,6 +114,13 @@ def s_canon(v):
         top = [base[i] for i in ep]
         if b_listed:
             top.insert(1 if variant else 0, mk('DATA', 'b', 2, MD5=digest_for('MD5', 'B')))
+        # two names that differ only in case, listed in a different order in the two
+        # histories (a sort key that folds case would leave their order to history)
+        fs.add_file('q', size=1, digest='q')
+        fs.add_file('Q', size=1, digest='Q')
+        pair = [mk('DATA', 'q', 1, MD5=digest_for('MD5', 'q')),
+                mk('DATA', 'Q', 1, MD5=digest_for('MD5', 'Q'))]
+        top += pair[::-1] if variant else pair
         top.append(mk('IGNORE', 'zz'))
         top.append(mk('DIST', 'd.tar', 3, MD5=digest_for('MD5', 'd')))
         sbase = [mk('DATA', 'x', 1, MD5=digest_for('MD5', 'x')),
